@@ -37,19 +37,25 @@ Positions(n) ==
 (* "ownerLabels": besides the two pods whose labels differ (at positions i and j) the owner has `sib` further pods that agree  *)
 (* with one of them; `devFirst` says whether the deviating pod is the one at position i (the siblings then follow at j) or the  *)
 (* one at position j (the siblings precede it at i).  Other kinds: sib = 0.                                                    *)
+(* admin-policy conflicts: the shape of the policies in conflict -- 0: each has a rule; 1: the one at position i has no rules at *)
+(* all (a placeholder that reserves a priority or a name); 2: the one at j (single-resource conflicts: at i); 3: both; 4: the  *)
+(* one at i has only an egress rule for nobody                                                                                *)
+Shapes(k) == IF k \in {"samePriority", "priorityLow", "priorityHigh", "dupANPName", "twoBANPs", "banpNotDefault"} THEN 0..4 ELSE {0}
 (* how the deviating pod's labels differ: another value of the same key, one more key with a value, one more key with an EMPTY value *)
 Devs(k) == IF k = "ownerLabels" THEN {"value", "extraKey", "extraEmptyKey"} ELSE {"value"}
 Sibs(k) == IF k = "ownerLabels" THEN 0..3 ELSE {0}
 DevFirst(k) == IF k = "ownerLabels" THEN BOOLEAN ELSE {FALSE}
 Cases ==
-  {[kind |-> k, n |-> n, i |-> p[1], j |-> p[2], fam |-> f, prios |-> Prios(f, n), sib |-> sd[1], devFirst |-> sd[2], dev |-> sd[3]] :
+  {[kind |-> k, n |-> n, i |-> p[1], j |-> p[2], fam |-> f, prios |-> Prios(f, n), sib |-> sd[1], devFirst |-> sd[2], dev |-> sd[3], shape |-> sd[4]] :
       k \in Kinds \ {"none"}, n \in Sizes, p \in UNION {Positions(m) : m \in Sizes}, f \in Families,
-      sd \in (0..3) \X BOOLEAN \X {"value", "extraKey", "extraEmptyKey"}}
-  \cup {[kind |-> "none", n |-> n, i |-> 1, j |-> 2, fam |-> f, prios |-> Prios(f, n), sib |-> 0, devFirst |-> FALSE, dev |-> "value"] : n \in Sizes, f \in Families}
+      sd \in {x \in (0..3) \X BOOLEAN \X {"value", "extraKey", "extraEmptyKey"} \X (0..4) :
+                 \* (only one of the two families of dimensions varies for a kind)
+                 (x[4] = 0) \/ (x[1] = 0 /\ x[2] = FALSE /\ x[3] = "value")}}
+  \cup {[kind |-> "none", n |-> n, i |-> 1, j |-> 2, fam |-> f, prios |-> Prios(f, n), sib |-> 0, devFirst |-> FALSE, dev |-> "value", shape |-> 0] : n \in Sizes, f \in Families}
   \* a single AdminNetworkPolicy (the sort never calls its comparison)
-  \cup {[kind |-> k, n |-> 1, i |-> 1, j |-> 1, fam |-> "asc", prios |-> <<0>>, sib |-> 0, devFirst |-> FALSE, dev |-> "value"] : k \in {"priorityLow", "priorityHigh", "none"}}
+  \cup {[kind |-> k, n |-> 1, i |-> 1, j |-> 1, fam |-> "asc", prios |-> <<0>>, sib |-> 0, devFirst |-> FALSE, dev |-> "value", shape |-> sh] : k \in {"priorityLow", "priorityHigh", "none"}, sh \in {0, 1}}
 
-Valid(x) == /\ x.sib \in Sibs(x.kind) /\ x.devFirst \in DevFirst(x.kind) /\ x.dev \in Devs(x.kind)
+Valid(x) == /\ x.sib \in Sibs(x.kind) /\ x.devFirst \in DevFirst(x.kind) /\ x.dev \in Devs(x.kind) /\ x.shape \in Shapes(x.kind)
             /\ (x.n = 1 \/ (x.j <= x.n /\ <<x.i, x.j>> \in Positions(x.n) /\ IsPerm(x.fam, x.n)))
 
 VARIABLE c
